@@ -226,7 +226,47 @@ def _pin(func, n):
 ir_a = _pin(_ir_a, 3)     # pinned formats: what `insert_round` needs to find its sites
 
 
-ROOTS = ['loops_a', 'loops_b', 'odd_trip', 'nest_trip', 'static_nest', 'calls_a', 'calls_b', 'calls_c', 'rounds_a', 'rounds_b', 'mixed']
+@fp.fpy
+def stores_a(xs: list[fp.Real], i: fp.Real, x: fp.Real) -> fp.Real:
+    # indexed assignments with sites in the subscript and in the stored value
+    xs[leaf(i)] = mid(x)
+    a = x + 141
+    for k in range(2):
+        xs[k] = leaf(a) + mid(xs[leaf(k)])
+    xs[mid(i) - 142] = a
+    if leaf(a) > 143:
+        xs[0] = leaf(mid(x))
+    return xs[0] + a
+
+
+@fp.fpy(ctx=fp.FP64)
+def _ir_b(ys: list[fp.Real], i: fp.Real, x: fp.Real, y: fp.Real) -> fp.Real:
+    with fp.REAL:
+        ys[i * 3] = x * x
+        t = ys[i * 2] + (x * y)
+    u = t * 151
+    with fp.REAL:
+        ys[i * x] = (y * y) - abs(x * i)
+    return u + ys[0]
+
+
+def _pin_b():
+    from fpy2.strategies import monomorphize
+    from fpy2.types import RealType, ListType
+    r = RealType(fp.FP32)
+    return monomorphize(_ir_b, fp.FP64, [ListType(r), r, r, r])
+
+
+try:
+    ir_b = _pin_b()
+except Exception:      # the pinning API differs: the root is simply absent
+    ir_b = None
+
+
+ROOTS = ['loops_a', 'loops_b', 'odd_trip', 'nest_trip', 'static_nest', 'calls_a', 'calls_b', 'calls_c', 'rounds_a', 'rounds_b', 'mixed',
+         'stores_a']
+if ir_b is not None:
+    ROOTS.append('ir_b')
 
 
 # ---------------------------------------------------------------------------
